@@ -57,6 +57,7 @@ type FuncContract struct {
 	Budget   int // solver seconds per obligation (0 = tier default)
 	FrameOnly bool // only frame/initialisation obligations (no SMT obligations are generated)
 	Requires []*Clause
+	Assumes  []*Clause
 	Ensures  []*Clause
 	Panics   *Clause
 	Modifies []string
@@ -105,7 +106,7 @@ type Contracts struct {
 	File    string
 }
 
-var keywordRe = regexp.MustCompile(`^(spec|axiom|lemma|func|props|tier|arith|pure|inline|trusted|nosafety|requires|ensures|expect|panics|modifies|loop|ghost|assert|replaces|initfields|frameonly|budget|panicfree)\b`)
+var keywordRe = regexp.MustCompile(`^(spec|axiom|lemma|func|props|tier|arith|pure|inline|trusted|nosafety|requires|ensures|expect|panics|modifies|loop|ghost|assert|replaces|initfields|frameonly|budget|panicfree|assumes)\b`)
 var labelRe = regexp.MustCompile(`^\[([A-Za-z0-9_.\-]+)\]\s*`)
 
 func (c *Contracts) newClause(kind, text string, line int) *Clause {
@@ -245,6 +246,11 @@ func ParseContracts(path string) (*Contracts, error) {
 				cur.Ghosts = append(cur.Ghosts, word+" "+strings.TrimSpace(rest))
 			case "requires":
 				cur.Requires = append(cur.Requires, c.newClause("requires", rest, it.line))
+			case "assumes":
+				// a precondition assumed inside the body but NOT checked at call sites: an explicit,
+				// listed assumption (typically a data-structure invariant of the sweep that this
+				// family cannot establish)
+				cur.Assumes = append(cur.Assumes, c.newClause("assumes", rest, it.line))
 			case "ensures":
 				cur.Ensures = append(cur.Ensures, c.newClause("ensures", rest, it.line))
 			case "expect":
